@@ -11,5 +11,5 @@ Require Extraction.
 Require Import ExtrOcamlBasic.
 Extraction Language OCaml.
 Extraction "model.ml" byte_of_N byte_to_N gmatch keys_filter
-  z_to_dec parse_int_unbounded atoi64 purge srv_init srv_exec srv_exec_bg srv_exec_multi
+  z_to_dec parse_int_unbounded atoi64 purge srv_init srv_exec srv_exec_bg srv_exec_multi srv_disconnect
   reply_wf encode_cmd encode_reply decode_stream.
